@@ -81,6 +81,7 @@ void Kernel::reset(const World &nw, uint64_t nsalt) {
   n_descendants = 0;
   n_stepped_reads = 0;
   n_stalls = 0;
+  n_errno_clobbered = 0;
   natural_emfile_ops.clear();
   cur = nullptr;
   last_task = -1;
